@@ -22,7 +22,11 @@ Oracle : (independent of the model) ping and speed-test cells sent into a plain 
          hops i+1..n (raw SessionKeys, not ipv8 code) and is 24 bytes longer than on link i+1; neither the
          payload nor a body of another link occurs on a link; an altered / spliced / injected cell is never
          delivered, never forwarded by a forward relay, and raises nothing; the unmodified last backward cell arriving at the
-         originator from the first hop's IP on another port or from an unrelated host reaches no consumer.
+         originator from the first hop's IP on another port or from an unrelated host reaches no consumer; with circuits of
+         two or three different originators ending at ONE exit node (real TunnelExitSocket objects, gated opening of the
+         transports, first datagrams sent while a socket is still opening, IP-literal v4 / v6 destinations) every reply from
+         outside is delivered exactly once to the originator whose datagram it answers, under that circuit's id, with the
+         answering host as origin.
 """
 from __future__ import annotations
 
@@ -827,6 +831,118 @@ async def e2e_scenario(ctx, run, r):
     return n_ok
 
 
+async def two_origins_one_exit(ctx, r):
+    """return path with two (three) originators sharing ONE exit node: real TunnelExitSocket objects, only the OS transports
+    are faked and their opening is gated (c05.CNet), IP-literal destinations.  Each originator's first datagrams are sent
+    while its own socket, or the other circuit's, is still opening; then the outside answers every datagram on the
+    transport it left through, v4 and v6.  Oracle: every reply is delivered exactly once, to the originator whose
+    datagram it answers, under that originator's circuit id, with the answering host as origin."""
+    from tools.checks import c05
+    n_rounds = 0
+    tn = c05.CNet(n_relays=2, n_exits=1, exit_flags=(2, 4, 8))
+    await tn.start()
+    try:
+        exit_node = tn.nodes["exit0"]
+        originators = [tn.origin, tn.nodes["relay0"], tn.nodes["relay1"]]
+        for rnd_i in range(6 if ctx.quick else 40):
+            circuits = []
+            for k in range(2 if rnd_i % 3 else 3):
+                o = originators[(rnd_i + k) % 3]
+                c = await tn.build_circuit(1 if (rnd_i + k) % 2 else 2, origin=o)
+                if c is None:
+                    continue
+                path = path_of(tn, c)
+                if path and path[-1][0] is exit_node and path[-1][2] == "exit":
+                    circuits.append((o, c, exit_node.exit_sockets[path[-1][1]]))
+            if len(circuits) < 2:
+                ctx.broke("scenario: two circuits of different originators at one exit not built")
+                continue
+            by_cid = {c.circuit_id: (o, c, es) for o, c, es in circuits}
+            # round 0: A sends, A's socket opens, B sends while its socket is still opening, A sends again, B's opens, B sends
+            (oa, ca, ea), (ob, cb_, eb) = circuits[0], circuits[1]
+            if rnd_i == 0:
+                plan = [("send", ca.circuit_id), ("open", ca.circuit_id), ("send", cb_.circuit_id), ("send", ca.circuit_id),
+                        ("open", cb_.circuit_id), ("send", cb_.circuit_id)]
+            elif rnd_i == 1:
+                plan = [("send", ca.circuit_id), ("send", cb_.circuit_id), ("open", cb_.circuit_id), ("open", ca.circuit_id)]
+            else:
+                plan = []
+                for o, c, es in circuits:
+                    plan += [("send", c.circuit_id)] * r.choice([1, 2, 3]) + [("open", c.circuit_id)]
+                r.shuffle(plan)
+            meta = {"kind": "two-origins-one-exit", "round": rnd_i, "circuits": len(circuits), "schedule": [w for w, _ in plan]}
+            tn.hold_transports = True
+            sent, seq = {}, 0
+            mark_out = len(tn.exits_out)
+            evs = []
+            for what, cid in plan:
+                o, c, es = by_cid[cid]
+                if what == "send":
+                    seq += 1
+                    data = c05.tagged(r, c, seq)
+                    dest = ("198.51.100.%d" % (1 + seq % 200), 3000 + seq) if seq % 3 else ("2001:db8::%x" % seq, 3000 + seq)
+                    sent[data] = (cid, dest)
+                    o.send_data(c.hop.address, c.circuit_id, dest, NULL, data)
+                    await tn.drain_c(evs)
+                else:
+                    await tn.release_transports(es)
+            tn.hold_transports = False
+            await tn.release_transports(None)
+            await tn.drain_c(evs)
+            outs = tn.exits_out[mark_out:]
+            n_rounds += 1
+            ctx.count(("two-origins-one-exit", rnd_i, tuple(w for w, _ in plan)), nontrivial=True)
+            # the outside answers every datagram on the transport it came through
+            evs = []
+            expect = {}
+            for owner, data, addr in outs:
+                reply = b"d" + b"REPLY" + data[1:]
+                expect[reply] = (sent.get(data, (None, None))[0], tuple(addr))
+                if ":" in addr[0]:
+                    owner.datagram_received_ipv6(reply, tuple(addr) + (0, 0))
+                else:
+                    owner.datagram_received_ipv4(reply, tuple(addr))
+            await tn.drain_c(evs)
+            got = [(e["node"], rec[1], tuple(rec[2]), rec[3]) for e in evs for rec in e["records"] if rec[0] == "raw"]
+            seen = {}
+            bad = False
+            for node, cid, origin, data in got:
+                want_cid, want_origin = expect.get(data, (None, None))
+                seen[data] = seen.get(data, 0) + 1
+                if want_cid is None:
+                    continue
+                if by_cid[want_cid][0]._verif_name != node or cid != want_cid:
+                    ctx.violation("backward/delivered-to-other-origin",
+                                  "the reply to a datagram that %s sent into circuit %d was delivered to %s under circuit %d (%d circuits of different "
+                                  "originators at one exit; schedule %s)" % (by_cid[want_cid][0]._verif_name, want_cid, node, cid, len(circuits),
+                                                                             meta["schedule"]), meta)
+                    bad = True
+                    break
+                if origin[0] != want_origin[0] or origin[1] != want_origin[1]:
+                    ctx.violation("backward/wrong-origin-address", "a reply from %s reached %s labelled as coming from %s" % (want_origin, node, origin), meta)
+                    bad = True
+                    break
+            if bad:
+                continue
+            if sorted(d for _, d, _ in outs) != sorted(sent):
+                ctx.violation("forward/lost-or-duplicated-at-shared-exit", "%d datagrams sent into %d circuits at one exit, %d left it" % (
+                    len(sent), len(circuits), len(outs)), meta)
+            elif any(seen.get(rp, 0) != 1 for rp in expect):
+                ctx.violation("backward/reply-lost-or-duplicated", "%d replies handed to the exit's transports, delivered: %s" % (
+                    len(expect), sorted(seen.values())), meta)
+            for owner, data, addr in outs:
+                cid = sent.get(data, (None, None))[0]
+                if cid in by_cid and by_cid[cid][2] is not owner:
+                    ctx.violation("forward/left-through-other-circuits-socket", "a datagram sent into circuit %d left through the socket of circuit %s" % (
+                        cid, getattr(owner, "circuit_id", None)), meta)
+                    break
+    finally:
+        tn.hold_transports = False
+        await tn.release_transports(None)
+        await tn.stop()
+    return n_rounds
+
+
 def evaluate(ctx, run, label):
     cases = run.cases
     if not cases:
@@ -866,6 +982,7 @@ async def _run(ctx):
     finally:
         await tn2.stop()
     evaluate(ctx, run2, "e2e")
+    ctx.extra["two_origins_one_exit_rounds"] = await two_origins_one_exit(ctx, ctx.rng("shared-exit"))
 
 
 def in_loop(coro_fn, *a):
@@ -898,6 +1015,9 @@ async def replay_case(case, verbose=True):
         def count(self, *a, **k):
             pass
     ctx = Sink()
+    if case.get("kind") == "two-origins-one-exit":
+        await two_origins_one_exit(ctx, r)
+        return problems
     if case.get("e2e") or case.get("kind") == "e2e" or (case.get("kind") == "cell-kinds" and "e2e" in str(case.get("circuit"))):
         tn = await make_net(hidden=True)
         run = Run(ctx, tn, "replay")
@@ -996,7 +1116,9 @@ def run(ctx):
                             "ping/pong, cell kinds {ping, speed-test} x {plain 1..3 hops, linked e2e both directions} "
                             "with request-cache oracle, returned IPv8-shaped data (own / foreign prefix), returned datagrams shaped like every tunnel message type x 3 outside senders; faults per direction and link: every header byte, 64 sampled "
                             "(thorough: all) body bytes, truncation, extension, cross-circuit and reflected splices, injection under fresh keys / unknown id / "
-                            "plaintext flag, the unmodified cell from a wrong sender (first hop's IP on another port, unrelated host) at the originator; one end-to-end (rendezvous) circuit pair, both directions: sizes, every size 0..22, "
+                            "plaintext flag, the unmodified cell from a wrong sender (first hop's IP on another port, unrelated host) at the originator; "
+                            "6 (thorough 40) rounds of 2-3 circuits of different originators at one exit with gated transport opening interleaved with the "
+                            "first datagrams + replies on every transport; one end-to-end (rendezvous) circuit pair, both directions: sizes, every size 0..22, "
                             "non-IPv8 and IPv8-shaped payloads (foreign / own prefix), faults on every link; each event is one lockstep case; "
                             "distinct = distinct scenario parameters")
 
